@@ -338,6 +338,13 @@ def expected_bodies():
 def current_body(key):
     fname, cls, fn = key.split(":")
     tree = parse(fname)
+    if fn.startswith("="):
+        name = fn[1:]
+        hits = [n for n in tree.body if isinstance(n, (ast.Assign, ast.AnnAssign))
+                and ast.unparse(n.targets[0] if isinstance(n, ast.Assign) else n.target) == name]
+        if len(hits) != 1:
+            raise Shape(f"module-level {name} not found in {fname}")
+        return ast.unparse(hits[0].value)
     node = find_class(tree, cls) if cls else tree
     return body_text(find_func(node, fn))
 
@@ -350,7 +357,7 @@ def body_fact(key, out):
     except Shape:
         got = None
     ok = got is not None and got in expected_bodies().get(key, [])
-    name = fname.split(".")[0] + "_" + (cls.lower() + "_" if cls else "") + fn.lstrip("_") + "_ok"
+    name = fname.split(".")[0] + "_" + (cls.lower() + "_" if cls else "") + fn.lstrip("_=").lower() + "_ok"
     name = {"connection_connection_start_ok": "connection_connection_start_ok" if fn == "start" else "connection_connection_inner_start_ok"}.get(name, name)
     if not ok:
         shown = (got or "<missing>").replace("*)", "* )").replace('"', "''")
@@ -580,7 +587,66 @@ def facts_shared():
     return out
 
 
-SECTIONS = [("stream", facts_stream), ("control", facts_control), ("packets", facts_packets), ("conn", facts_conn), ("shared", facts_shared)]
+# ----------------------------------------------------------------------------- auth.py / utils.xor / nonce
+AUTH_BODIES = [
+    "auth.py:NativePasswordAuthPlugin:auth", "auth.py:NativePasswordAuthPlugin:password_matches",
+    "auth.py:NativePasswordAuthPlugin:verify_scramble", "auth.py:NativePasswordAuthPlugin:empty_password_quickpath",
+    "auth.py:NativePasswordAuthPlugin:create_auth_string",
+    "auth.py:AbstractClearPasswordAuthPlugin:auth", "auth.py:NoLoginAuthPlugin:auth", "auth.py:AuthPlugin:start",
+    "utils.py::xor", "utils.py::nonce", "packets.py::make_handshake_v10",
+]
+
+
+def facts_auth():
+    import string as _string
+    out = []
+    for key in AUTH_BODIES:
+        body_fact(key, out)
+    ut = parse("utils.py")
+    snc = [n for n in ut.body if isinstance(n, ast.Assign) and ast.unparse(n.targets[0]) == "SAFE_NONCE_CHARS"]
+    if len(snc) != 1:
+        raise Shape("SAFE_NONCE_CHARS not found")
+    val = eval(compile(ast.Expression(snc[0].value), "utils.py", "eval"), {"string": _string, "__builtins__": {}})
+    if not isinstance(val, bytes):
+        raise Shape("SAFE_NONCE_CHARS is not bytes")
+    out.append("Definition utils_safe_nonce_chars : list N := " + nlist(list(val)) + ".")
+    au = parse("auth.py")
+    fl = [n for n in au.body if isinstance(n, ast.Assign) and ast.unparse(n.targets[0]) == "FILLER"]
+    val = eval(compile(ast.Expression(fl[0].value), "auth.py", "eval"), {"__builtins__": {}})
+    out.append("Definition auth_filler : list N := " + nlist(list(val)) + ".")
+    npl = find_class(au, "NativePasswordAuthPlugin")
+    consts = {}
+    for n in npl.body:
+        if isinstance(n, ast.Assign) and isinstance(n.value, ast.Constant):
+            consts[n.targets[0].id] = n.value.value
+    out.append(f"Definition auth_native_names_ok : bool := {'true' if consts.get('name') == 'mysql_native_password' and consts.get('client_plugin_name') == 'mysql_native_password' else 'false'}.")
+    return out
+
+
+# ----------------------------------------------------------------------------- results.py
+RESULT_BODIES = [
+    "results.py::=_TEXT_ENCODERS", "results.py::=_BINARY_ENCODERS", "results.py::=_PY_TO_MYSQL_TYPE",
+    "results.py::_binary_encode_tiny", "results.py::_binary_encode_str", "results.py::_binary_encode_date",
+    "results.py::_binary_encode_short", "results.py::_binary_encode_int", "results.py::_binary_encode_long",
+    "results.py::_binary_encode_longlong", "results.py::_binary_encode_float", "results.py::_binary_encode_double",
+    "results.py::_timedelta_parts", "results.py::_text_encode_timedelta", "results.py::_binary_encode_timedelta",
+    "results.py::_text_encode_str", "results.py::_text_encode_tiny", "results.py::infer_type",
+    "results.py::_ensure_result_cols", "results.py::ensure_result_set",
+    "results.py:NullBitmap:new", "results.py:NullBitmap:from_buffer", "results.py:NullBitmap:_num_bytes",
+    "results.py:NullBitmap:flip", "results.py:NullBitmap:is_flipped", "results.py:NullBitmap:_pos",
+    "packets.py::make_text_resultset_row", "packets.py::make_binary_resultrow", "packets.py::make_column_definition_41",
+    "packets.py::make_column_count", "types.py::str_len",
+]
+
+
+def facts_results():
+    out = []
+    for key in RESULT_BODIES:
+        body_fact(key, out)
+    return out
+
+
+SECTIONS = [("stream", facts_stream), ("control", facts_control), ("packets", facts_packets), ("conn", facts_conn), ("shared", facts_shared), ("auth", facts_auth), ("results", facts_results)]
 
 
 IMPORTS = {
